@@ -180,6 +180,51 @@ impl<KT: DbMapKeyType> FileDbXxxInner<KT> {
     }
 }
 
+// relink: NEW
+impl<KT: DbMapKeyType> FileDbXxxInner<KT> {
+    /// returns the offset of the key piece that precedes `key_offset` in the bucket chain
+    /// of `hash`, or zero if `key_offset` is the head of the chain.
+    fn find_prev_in_hash_bucket(
+        &mut self,
+        hash: HashValue,
+        key_offset: KeyPieceOffset,
+    ) -> Result<KeyPieceOffset> {
+        let mut prev_key_offset = KeyPieceOffset::new(0);
+        let mut curr_key_offset = self.htx_file.read_key_piece_offset(hash)?;
+        let mut locked_key = self.key_file.0.borrow_mut();
+        while !curr_key_offset.is_zero() && curr_key_offset != key_offset {
+            prev_key_offset = curr_key_offset;
+            curr_key_offset = locked_key.read_piece_only_bucket_next_offset(curr_key_offset)?;
+        }
+        Ok(prev_key_offset)
+    }
+    /// a key piece of the bucket chain of `hash` has moved to `new_key_offset`.
+    /// `prev_key_offset` is the key piece that links to it, or zero for the bucket head.
+    /// rewriting the previous piece may move that one too, then its previous one is relinked.
+    fn relink_moved_key(
+        &mut self,
+        hash: HashValue,
+        prev_key_offset: KeyPieceOffset,
+        new_key_offset: KeyPieceOffset,
+    ) -> Result<()> {
+        let mut prev_key_offset = prev_key_offset;
+        let mut new_key_offset = new_key_offset;
+        while !prev_key_offset.is_zero() {
+            let mut prev_key_piece = self.key_file.read_piece(prev_key_offset)?;
+            prev_key_piece.bucket_next_offset = new_key_offset;
+            let new_prev_key = self.key_file.write_piece(prev_key_piece)?;
+            if new_prev_key.offset == prev_key_offset {
+                return Ok(());
+            }
+            // the previous piece has moved too. the chain above it still links to the old place.
+            let moved_key_offset = prev_key_offset;
+            new_key_offset = new_prev_key.offset;
+            prev_key_offset = self.find_prev_in_hash_bucket(hash, moved_key_offset)?;
+        }
+        self.htx_file.write_key_piece_offset(hash, new_key_offset)
+    }
+}
+
 // impl trait: DbXxxBase
 impl<KT: DbMapKeyType> DbXxxBase for FileDbXxxInner<KT> {
     #[inline]
@@ -248,7 +293,8 @@ impl<KT: DbMapKeyType> DbXxxObjectSafe<KT> for FileDbXxxInner<KT> {
         if let Some((key_offset, _prev_key_offset)) = opt {
             let new_key_offset = self.store_value_on_insert(key_offset, value)?;
             if key_offset != new_key_offset {
-                unimplemented!("key_offset != new_key_offset : in put_kt");
+                _cold();
+                self.relink_moved_key(hash, _prev_key_offset, new_key_offset)?;
             }
         } else {
             _cold();
@@ -285,7 +331,9 @@ impl<KT: DbMapKeyType> DbXxxObjectSafe<KT> for FileDbXxxInner<KT> {
                 let new_prev_key = self.key_file.write_piece(prev_key_piece)?;
                 if _prev_key_offset != new_prev_key.offset {
                     _cold();
-                    panic!("_prev_key_offset != new_prev_key_offset : in del_kt");
+                    let prev_prev_key_offset =
+                        self.find_prev_in_hash_bucket(hash, _prev_key_offset)?;
+                    self.relink_moved_key(hash, prev_prev_key_offset, new_prev_key.offset)?;
                 }
             }
             //
